@@ -129,7 +129,16 @@ func TestC19(t *testing.T) {
 		if j.t.ID.Client != tls.HelloGolang.Client {
 			edited.Edit = func(u *tls.UConn) error { return u.SetClientRandom(bytes.Repeat([]byte{0x5a}, 32)) }
 		}
-		conns := []resConn{{j.t, "example.test", 0}, {j.t, "example.test", time.Minute}, {edited, "example.test", 2 * time.Minute}, {j.t, "example.test", 3 * time.Minute}}
+		// the fifth first looks at the hello through BuildHandshakeStateWithoutSession and then
+		// just handshakes; the sixth does both
+		inspected := j.t
+		both := edited
+		if j.t.ID.Client != tls.HelloGolang.Client {
+			inspected.InspectFirst = true
+			both.InspectFirst = true
+		}
+		conns := []resConn{{j.t, "example.test", 0}, {j.t, "example.test", time.Minute}, {edited, "example.test", 2 * time.Minute}, {j.t, "example.test", 3 * time.Minute},
+			{inspected, "example.test", 4 * time.Minute}, {both, "example.test", 5 * time.Minute}, {j.t, "example.test", 6 * time.Minute}}
 		hs := runHistory(conns, scfg, cache)
 		mustResume := (j.server == "tls12" && hasTicket(j.t)) || (j.server != "tls12" && hasPSK(j.t))
 		sig := map[string]string{"target": family(j.t.Name), "server": j.server}
@@ -182,7 +191,7 @@ func TestC19(t *testing.T) {
 	}
 
 	// mixed specs over one cache (Roller style), several names, clock steps
-	nh := mon.Pick(120, 3000)
+	nh := mon.Pick(500, 3000)
 	parallel(nh, func(i int) {
 		rg := Sub("C19mix", i)
 		pool := []Target{}
